@@ -347,6 +347,28 @@ def many_denominations(hbin, scr, sd):
     return rec, 1
 
 
+def unbalanced_genesis(hbin, scr, sd):
+    """C04 at genesis: an exported document is edited so that the escrow account's bank balance is not the locked total
+    (balance dropped / one coin short / one coin over; the bank's supply recomputed) - each must be refused at import; the
+    original chain carries on."""
+    import vlib
+    g = {"accts": ["A1", "A2", "A3"], "bal": {a: {"nund": 1000, "other": 1000} for a in ("A1", "A2", "A3")},
+         "ent": {"signers": ["A1"], "min": 1, "limit": 4, "denom": "nund", "wl": ["A3"], "startId": 1},
+         "wrk": {"feeReg": 24, "feeRec": 2, "feePur": 3, "denom": "nund", "def": 2, "max": 4, "startId": 1},
+         "bcn": {"feeReg": 20, "feeRec": 1, "feePur": 5, "denom": "nund", "def": 2, "max": 4, "startId": 1},
+         "str": {"feeNum": 1, "feeDen": 100}}
+    BB, EB, CM = {"a": "BeginBlock", "dt": 1000}, {"a": "EndBlock"}, {"a": "Commit"}
+    tx = lambda fee, *m: dict({"a": "DeliverTx", "msgs": list(m)}, **({"fee": {"nund": fee}} if fee else {}))
+    behs = []
+    for how in ("escrow-dropped", "escrow-short", "escrow-extra"):
+        b = [{"a": "InitChain", "g": g}, BB, tx(0, {"t": "Raise", "pur": "A3", "amt": 50, "denom": "nund"}), tx(0, {"t": "Decide", "signer": "A1", "id": 1, "d": "accept"}), EB, CM] + [BB, EB, CM] * 2
+        b += [{"a": "ExportImport", "mutate": how}, BB, tx(24, {"t": "WReg", "owner": "A3", "moniker": "m", "name": "n", "genesis": "g", "type": "t"}), EB, CM,
+              {"a": "ExportImport", "mutate": how}, {"a": "ExportImport"}, BB, EB, CM]
+        behs.append(b)
+    rec, _ = vlib.record_behaviours(hbin, behs, scr, name="unbalanced-genesis")
+    return rec, len(behs)
+
+
 def extreme_amounts(hbin, scr, sd):
     """C14 'extreme amounts': purchase orders of 2^62 ... 2^200 nund (decimal strings; far beyond TLC's integers) raised,
     accepted, minted and locked, partly unlocked by registry fees, with an export/import at the end.  The genesis is
@@ -663,7 +685,7 @@ PLANS = {
     "C03": dict(mc=both(ENT_MC, ENT_GHOST), extra={"quick": [decision_patterns, signer_list_anomalies], "thorough": [decision_patterns, signer_list_anomalies]}, sim=ENT_SIM, random=rnd("ent", (300, 3), (2000, 20)),
                 rule="TLC exhaustive on MC_Ent (all interleavings of raise/decide/whitelist/gov param change/time advance in small scope); behaviours = TLC-simulated schedules + seeded random histories executed on the real app; non-trivial = a recorded step (one ABCI call) validated against Chain!Step and all C03 monitors",
                 assumptions=COMMON_ASSUME),
-    "C04": dict(ledger=True, mc=both(FEE_MC, ENT_MC), sim=both(FEE_SIM, ENT_SIM), sweep=FEE_SWEEP, random=rnd("ent", (300, 3), (2000, 20)),
+    "C04": dict(ledger=True, mc=both(FEE_MC, ENT_MC), extra={"quick": [unbalanced_genesis], "thorough": [unbalanced_genesis]}, sim=both(FEE_SIM, ENT_SIM), sweep=FEE_SWEEP, random=rnd("ent", (300, 3), (2000, 20)),
                 rule="TLC exhaustive on MC_Fee (orders completing, then fee-paying registry txs with every relation of locked/liquid to the fee, exact/higher/missing/multi-denomination fees, bad signatures, k-th message failing, sends to escrow); view = locked/spent books, totals, escrow balance, registered module invariant", assumptions=COMMON_ASSUME),
     "C05": dict(ledger=True, mc=both(FEE_MC, FEE_GRANT), sim=FEE_SIM, sweep=FEE_SWEEP, random=both(rnd("ent", (300, 4), (2000, 20)), rnd("mix", (200, 2), (1500, 10))),
                 rule="as C04 plus vesting purchasers in the random histories; monitors: locked drops only by min(fee, locked) in a registry tx of the payer and equals the spent increase; completion never raises spendable", assumptions=COMMON_ASSUME),
